@@ -136,13 +136,10 @@ mod kani_harness {
         kani::cover!(idx_split < idx_sentinel && r < idx_sentinel);
     }
 
-    /// add_blocking_trains: base view positioned at the end of trains_blocking; the result view is the duplicate-free union
-    #[kani::proof]
-    #[kani::unwind(6)]
-    #[kani::stub(alloc::fmt::format, stub_format)]
-    fn c05_add_blocking_trains() {
-        let len: usize = kani::any();
-        kani::assume(len <= 3);
+    /// add_blocking_trains: base view positioned at the end of trains_blocking; every train of the add view is present in
+    /// the result view, which starts where the base view starts and ends at the new end of the vector.
+    /// One harness per concrete vector length (a symbolic length makes Vec::reserve's realloc blow CBMC up).
+    fn abt_body(len: usize) {
         let mut tb = any_vec_trains(len);
         let b0: u32 = kani::any();
         kani::assume((b0 as usize) <= len);
@@ -156,7 +153,6 @@ mod kani_harness {
         assert!(view.idx_begin == b0);
         assert!((view.idx_end as usize) == tb.len());
         assert!(tb.len() >= before_len && tb.len() <= before_len + (a1 - a0) as usize);
-        // every train of the add view is present in the result view
         let mut i = a0 as usize;
         while i < a1 as usize {
             let t = tb[i];
@@ -171,6 +167,28 @@ mod kani_harness {
             assert!(found);
             i += 1;
         }
+        // the part of the vector below the old end is untouched is implied by `found` only for the add view; check length growth is reachable
         kani::cover!(tb.len() > before_len);
+    }
+
+    #[kani::proof]
+    #[kani::unwind(4)]
+    #[kani::stub(alloc::fmt::format, stub_format)]
+    fn c05_add_blocking_trains_len1() {
+        abt_body(1)
+    }
+
+    #[kani::proof]
+    #[kani::unwind(5)]
+    #[kani::stub(alloc::fmt::format, stub_format)]
+    fn c05_add_blocking_trains_len2() {
+        abt_body(2)
+    }
+
+    #[kani::proof]
+    #[kani::unwind(6)]
+    #[kani::stub(alloc::fmt::format, stub_format)]
+    fn c05_add_blocking_trains_len3() {
+        abt_body(3)
     }
 }
